@@ -144,12 +144,19 @@ type Sim struct {
 
 	// Values lets sim environments (simnet, simos) attach their per-run world.
 	Values map[string]any
+
+	ledgerBytes int64
 }
 
 // S is the current run, nil outside a run.
 var S *Sim
 
 var Epoch = time.Date(2024, 1, 1, 0, 0, 0, 0, time.UTC)
+
+// lastEnd is the virtual time at which the previous run ended: the clock that
+// instrumented code sees outside a run (post-run hooks gather metrics there), so
+// that it never mixes the wall clock with virtual timestamps.
+var lastEnd int64
 
 // TaskInfo describes a task that had not finished when the run ended.
 type TaskInfo struct {
@@ -219,16 +226,34 @@ func Run(t *testing.T, cfg Config, main func()) (res *Result) {
 				}
 			}
 		}()
-		synctestRun(func() {
-			S = s
-			s.initPolicy()
-			s.spawn("main", "harness", main)
-			s.loop()
-		})
+		// The function handed to the runtime is a static one (no heap closure) and
+		// the run's state is reached through package variables: with a capturing
+		// closure here, go1.26.8's collector now and then (about 1 worker process in
+		// 60 under load, only in allocation-heavy scenarios) aborted with "found
+		// pointer to free object", the free objects being exactly that closure and
+		// the one it captured.
+		runSim, runMain = s, main
+		synctestRun(bubbleMain)
 	}()
+	runSim, runMain = nil, nil
 	S = nil
+	lastEnd = s.now
 	res = s.result()
 	return res
+}
+
+var (
+	runSim  *Sim
+	runMain func()
+)
+
+//go:norace
+func bubbleMain() {
+	s := runSim
+	S = s
+	s.initPolicy()
+	s.spawn("main", "harness", runMain)
+	s.loop()
 }
 
 //go:norace
@@ -322,6 +347,17 @@ func GoDaemon(name string, fn func()) *Task {
 	return t
 }
 
+// Account adds n bytes to the run's ledger size; a run whose environment ledger
+// outgrows 256 MiB (a task of the code under test that sends in a loop) ends as
+// inconclusive at the next scheduling point instead of exhausting memory.
+//
+//go:norace
+func Account(n int) {
+	if s := S; s != nil {
+		s.ledgerBytes += int64(n)
+	}
+}
+
 // Cur returns the running task (nil outside task context).
 //
 //go:norace
@@ -359,7 +395,7 @@ func Yield() {
 		s.checkID(t)
 	}
 	s.yields++
-	if s.yields > 4*s.cfg.MaxSteps {
+	if s.yields > 4*s.cfg.MaxSteps || s.ledgerBytes > 1<<28 {
 		// a task is spinning through scheduling points without ever blocking
 		// (livelock in the code under test): end the run as inconclusive
 		if s.aborted == "" {
